@@ -3,7 +3,8 @@ draws its own family, sizes, options."""
 from . import gen, script as S, session
 
 STD_OFFABLE = ["MINIMALDATA", "MINIMALIF", "NULLDUMMY", "DISCOURAGE_UPGRADABLE_NOPS", "CLEANSTACK", "CONST_SCRIPTCODE",
-               "NULLFAIL", "STRICTENC", "DERSIG", "LOW_S", "P2SH", "CHECKLOCKTIMEVERIFY", "CHECKSEQUENCEVERIFY"]
+               "NULLFAIL", "STRICTENC", "DERSIG", "LOW_S", "P2SH", "CHECKLOCKTIMEVERIFY", "CHECKSEQUENCEVERIFY",
+               "DISCOURAGE_OP_SUCCESS", "DISCOURAGE_UPGRADABLE_PUBKEYTYPE", "DISCOURAGE_UPGRADABLE_TAPROOT_VERSION", "WITNESS_PUBKEYTYPE"]
 
 
 def hexs(b):
@@ -69,7 +70,7 @@ def _session_scenario(rng, purpose="rewind", allow_spend=True):
     fam = rng.weighted([
         (30, "mixed"), (14, "if-heavy"), (8, "alt-heavy"), (8, "codesep"), (8, "sig"), (5, "opcount"), (4, "bigstack"),
         (8, "disabled"), (5, "tiny"), (6 if allow_spend else 0, "dataset"), (24 if allow_spend else 0, "spend"),
-        (3, "long-listing"), (4, "pushforms"), (4, "p2sh-plain"),
+        (3, "long-listing"), (4, "pushforms"), (4, "p2sh-plain"), (7 if allow_spend else 0, "wrapped"),
     ])
     scn = {"family": fam, "opts": [], "stack": [], "spend": None, "observe": True, "tty": [1, 1], "env": {}}
     if rng.chance(20):
@@ -97,6 +98,33 @@ def _session_scenario(rng, purpose="rewind", allow_spend=True):
         scn["opts"] = list(sp["opts"])
         if rng.chance(15):
             scn["opts"].append("--quiet")
+        return scn
+    if fam == "wrapped":
+        # a generated script run under the segwit v0 / tapscript rules: witness script or tap leaf of a signature-free
+        # spend built by the harness; in a share of the cases with an operation that fails under the standard flags
+        from . import spend
+        wrap = rng.choice(["p2wsh", "tapscript", "tapscript"])
+        g = gen.ScriptGen(rng, max_ops=rng.range(5, 40))
+        g.build(rng.range(2, 14))
+        toks = list(g.toks)
+        off = []
+        if rng.chance(40):
+            bad = gen.failing_op(rng)
+            at = rng.below(len(toks) + 1)
+            toks = toks[:at] + bad + toks[at:]
+            if wrap == "tapscript" and any(t in ("OP_RESERVED", "OP_VER", "OP_CAT", "OP_RESERVED1") for t in bad if isinstance(t, str)) and rng.chance(60):
+                off.append("DISCOURAGE_OP_SUCCESS")       # these opcodes are "success" opcodes under the tapscript rules
+        if rng.chance(25):
+            f = rng.choice(STD_OFFABLE)
+            if f not in off:
+                off.append(f)
+        items = [S.scriptnum(rng.range(17, 900)) for _ in range(rng.range(0, 2))]
+        sp = spend.make_nosig(wrap, S.asm(toks), items, rng.range(0, 3))
+        scn["spend"] = {"tx": sp["tx"], "txin": sp["txin"]}
+        scn["spend_kind"] = "nosig-" + wrap
+        scn["script"] = None
+        if off:
+            scn["opts"].append("--modify-flags=" + ",".join("-" + f for f in off))
         return scn
     if fam == "p2sh-plain":
         # HASH160 <h> EQUAL with the redeem script as the top stack item: the P2SH section comes from the stack
